@@ -257,6 +257,7 @@ def main(run, tier):
     import contracts.errors as ce
     cs, lemmas, env = ce.build(importlib.import_module('calmjs.parse.lexers.es5'), es5)
     verify_functions(run, cs, {}, {}, tier=tier)
+    ce.escape_scan_obligation(run, importlib.import_module('calmjs.parse.lexers.es5'))
     from . import parsefwd
     parsefwd.add(run, tier, positions=True)
     # the scanning loops of Lexer._token terminate (variants len - pos / len - lexpos), relative to ply consuming >= 1 character per token
